@@ -485,7 +485,10 @@ def main():
     try:
         return _main(args, tier, seed, prop, t_start)
     finally:
-        shutil.rmtree(WORKROOT, ignore_errors=True)
+        if os.environ.get('VERIF_KEEP_WORK'):
+            print('work kept in', WORKROOT)
+        else:
+            shutil.rmtree(WORKROOT, ignore_errors=True)
 
 
 def _main(args, tier, seed, prop, t_start):
